@@ -15,12 +15,14 @@ import (
 	"os"
 	"path/filepath"
 	"strconv"
+	"strings"
 	"sync"
 	"testing"
 	"time"
 
 	"github.com/containerd/nri/pkg/api"
 
+	cfgapi "github.com/containers/nri-plugins/pkg/apis/config/v1alpha1"
 	"github.com/containers/nri-plugins/pkg/verifgen"
 )
 
@@ -61,10 +63,43 @@ func TestVerifC15Concurrent(t *testing.T) {
 			continue
 		}
 		workers := 4 + rng.Intn(4)
+		// a configuration the policy must reject, derived before the concurrent phase (no unlocked reads of m.cfg by the harness
+		// while requests run); worker 2 delivers it repeatedly, concurrently with worker 0's accepted re-application
+		var badCfg cfgapi.ResmgrConfig
+		for k := 0; k < 40 && badCfg == nil; k++ {
+			if nc, kind, _ := vMutateCfg(rng, h.m.cfg, m); strings.HasPrefix(kind, "bad:") {
+				badCfg = nc
+			}
+		}
 		var wg sync.WaitGroup
 		var mu sync.Mutex
 		results := []string{}
 		timedOut := false
+		// two dedicated configuration streams next to the request workers: the configuration in force re-applied (accepted) and a
+		// configuration the policy rejects (applied, refused, reverted), so that accepted and rejected updates meet each other and
+		// the requests at the lock many times per history
+		curCfg := h.m.cfg
+		for _, cs := range []struct {
+			name string
+			cfg  cfgapi.ResmgrConfig
+		}{{"cfg-accepted", curCfg}, {"cfg-rejected", badCfg}} {
+			if cs.cfg == nil {
+				continue
+			}
+			cs := cs
+			wg.Add(1)
+			go func() {
+				defer wg.Done()
+				for k := 0; k < 40; k++ {
+					r := vSafeStack(func() string { return vErr(h.m.reconfigure(cs.cfg)) })
+					if k%10 == 0 {
+						mu.Lock()
+						results = append(results, cs.name+" reconfig "+r)
+						mu.Unlock()
+					}
+				}
+			}()
+		}
 		for wk := 0; wk < workers; wk++ {
 			wg.Add(1)
 			wrng := rand.New(rand.NewSource(rng.Int63()))
@@ -117,9 +152,15 @@ func TestVerifC15Concurrent(t *testing.T) {
 						}
 					}
 					if wk == 0 && j%3 == 1 {
-						r := vSafeStack(func() string { return vErr(h.m.reconfigure(h.m.cfg)) })
+						r := vSafeStack(func() string { return vErr(h.m.reconfigure(curCfg)) }) // (curCfg: captured before the concurrent phase - the harness itself must not read m.cfg unlocked)
 						mu.Lock()
 						results = append(results, "w0 reconfig "+r)
+						mu.Unlock()
+					}
+					if wk == 2 && j%3 == 0 && badCfg != nil {
+						r := vSafeStack(func() string { return vErr(h.m.reconfigure(badCfg)) })
+						mu.Lock()
+						results = append(results, "w2 reconfig-rejected "+r)
 						mu.Unlock()
 					}
 					if wk == 1 && j%4 == 2 {
